@@ -19,7 +19,10 @@ META = dict(
          "stays good for 6 more calls (server listening, natural answers; immediate: clock +T per call; realistic: +T once so "
          "the timeout has elapsed, then +T/4 per call). Oracle: a reconnectable subject is connected to a live socket - "
          "connected, not cut off, .ca/.ha equal to the double's getsockname()/getpeername(), peer open - from the 4th good "
-         "call on; a subject that is not reconnectable constructs no socket after it has been cut off; nothing raises.",
+         "call on; a subject that is not reconnectable constructs no socket after it has been cut off; nothing raises. "
+         "Extra subject PatronSSE: a reconnectable Patron follows a text/event-stream whose server announces retry: 500 (ms) and "
+         "drops the stream 3 (4) times, after 2, 0 or 6 calls, by close or ECONNRESET - all combinations; it must be live again "
+         "within 8 service calls (retry/step + 4) of every cut.",
     note="Doubles replace loopback sockets so that the harness owns the schedule. 'Service call' for a bare Client is the "
          "triple serviceConnect/serviceReceives/serviceTxes an application loop makes. Horizon, deviation bound and the "
          "4-call liveness window are the stated bounds; longer outages are not explored.",
@@ -272,6 +275,105 @@ def execute(ch, subject, reconnectable, up0, H, part, states):
     return None
 
 
+# ----------------------------------------------------------------------------- server-sent event stream
+SSE_RETRY_MS = 500                 # what the server asks for: "retry: 500"
+SSE_T = SSE_RETRY_MS / 1000.0      # the Patron's own reconnect timeout is set to the same value
+SSE_STEP = SSE_T / 4               # clock advance per service call
+SSE_WINDOW = 4 + 4                 # ceil(timeout / step) calls for the timer to run out + 4
+SSE_CUTS = dict(quick=3, thorough=4)
+SSE_UPTIMES = (2, 0, 6)            # service calls the stream is followed before the next cut (default first)
+
+
+def execute_sse(ch, part, states):
+    """A reconnectable Patron follows a text/event-stream whose server announces `retry: 500` (ms) and drops
+    the stream several times while it keeps listening.  Choice points per cut: how long the stream is followed
+    first, and how the cut shows (server closes -> EOF, or ECONNRESET on recv).  Connects are realistic
+    (EINPROGRESS, then complete).  Oracle: live again within SSE_WINDOW service calls after every cut."""
+    pol = Policy(ch, True)
+    pol.frozen = True                       # socket answers are natural; the schedule below holds the choices
+    fn = net.FakeNet(policy=pol)
+    fn.menu = net.Menu(connect=(errno.EINPROGRESS,))
+    FSM.net = fn
+    ck = net.clock()
+    env = Env(fn, True)
+    sched = []
+    served = [0]
+    try:
+        pat = M["hclienting"].Patron(store=ck, hostname=net.LOOP, port=PORT, timeout=SSE_T, reconnectable=True)
+        pat.connector.reopen()
+        pat.requests.append(dict(method=u"GET", path=u"/stream"))
+    except Exception as ex:
+        return ("raised|%s|%s" % (type(ex).__name__, where_of(ex)), "constructor raised %r" % ex, sched, fn)
+    h = pat.connector
+
+    def tick(label):
+        ck.advance(SSE_STEP)
+        try:
+            pat.serviceAll()
+        except Exception as ex:
+            w = where_of(ex)
+            raise Bad27("raised|%s|%s" % (type(ex).__name__, w), "serviceAll raised %s: %s (in %s) during %s"
+                        % (type(ex).__name__, ex, w, label))
+        env.accept_all()
+        for c in env.conns:
+            if not c.closed and b"\r\n\r\n" in c.inbox:        # a request arrived: start the event stream
+                c.recv(len(c.inbox))
+                served[0] += 1
+                c.send(b"HTTP/1.0 200 OK\r\nContent-Type: text/event-stream\r\nCache-Control: no-cache\r\n"
+                       b"Connection: close\r\n\r\nretry: %d\n\n" % SSE_RETRY_MS +
+                       ("id: %d\ndata: hello %d\n\n" % (served[0], served[0])).encode("ascii"))
+        part.transitions += 1
+        why = live("Patron", pat, h)
+        states.add(hash(("sse", bool(h.connected), bool(h.cutoff), h.cs is None,
+                         None if h.cs is None else raw_of(h.cs).state, round(h.timer.remaining, 3),
+                         round(h.timer.duration, 3), why is None, served[0] > 0)))
+        return why
+
+    try:
+        for i in range(12):                  # connect, request, first events
+            tick("start")
+            if live("Patron", pat, h) is None and pat.respondent.leid == "1":
+                break
+        else:
+            raise core.BrokenCheck("event stream never started over ideal doubles")
+        if not pat.respondent.evented or int(pat.respondent.retry) != SSE_RETRY_MS:
+            raise core.BrokenCheck("respondent did not pick up the event stream / retry field")
+        for cut in range(1, SSE_CUTS[core.TIER] + 1):
+            up = SSE_UPTIMES[ch.choose(len(SSE_UPTIMES), "uptime", 0, 1)]
+            kind = ("close", "reset")[ch.choose(2, "cut", 0, 1)]
+            sched.append("cut%d:after %d calls by %s" % (cut, up, kind))
+            for i in range(up):
+                why = tick("following the stream")
+                if why is not None:
+                    raise Bad27("not-reconnected", "lost the stream without a cut while following it: %s" % why)
+            if kind == "close":
+                env.close_current()
+            else:
+                raw_of(h.cs).force("recv", net.ERR(errno.ECONNRESET))
+                for c in env.conns:          # the server side of a reset connection is gone too
+                    c.close()
+            for k in range(1, SSE_WINDOW + 1):
+                why = tick("cut %d" % cut)
+                if why is None and k > 1:
+                    break
+            if why is not None:
+                raise Bad27("not-reconnected",
+                            "event stream with retry: %d ms, timeout %gs, clock +%gs per call: %d service calls after cut "
+                            "#%d the client is still not connected to a live socket: %s (reconnect timer: duration %gs, "
+                            "remaining %gs)" % (SSE_RETRY_MS, SSE_T, SSE_STEP, SSE_WINDOW, cut, why, h.timer.duration,
+                                                h.timer.remaining))
+        part.outcome("Patron event stream: resumed after every cut")
+        return None
+    except Bad27 as b:
+        return (b.kind, b.what, sched, fn)
+
+
+class Bad27(Exception):
+    def __init__(self, kind, what):
+        self.kind = kind
+        self.what = what
+
+
 def trim(sched):
     """Drop the uneventful tail (good environment, nothing happening) from a printed schedule."""
     out = list(sched)
@@ -309,10 +411,14 @@ def work(cfg, replay=None):
     p = core.Part()
     states = set()
     best = {}
+    sse = subject == "PatronSSE"
 
     def run(ch):
         with core.watchdog(20):
-            res = execute(ch, subject, reconnectable, up0, b["H"], p, states)
+            if sse:
+                res = execute_sse(ch, p, states)
+            else:
+                res = execute(ch, subject, reconnectable, up0, b["H"], p, states)
         p.traces += 1
         p.evaluations += 1
         if res is not None:
@@ -338,7 +444,7 @@ def work(cfg, replay=None):
         run(core.Chooser(replay))
         st = dict(executions=1, max_points=len(replay))
     else:
-        st = core.dfs(run, bound=b["dev"])
+        st = core.dfs(run, bound=(None if sse else b["dev"]))
     for kind in sorted(best):
         p.violation(*best[kind][1])
     for h in states:
@@ -356,6 +462,7 @@ def run():
     net.selftest()
     ck = core.Check("C27", META["level"], META["technique"])
     cfgs = [(s, r, u) for s in SUBJECTS for r in (True, False) for u in (True, False)]
+    cfgs.append(("PatronSSE", True, True))
     ck.merge(core.pmap(work, cfgs))
     ck.part.states = len(ck.part.keys)
     b = BOUNDS[core.TIER]
@@ -367,6 +474,9 @@ def run():
         "TcpClientStack has no constructor parameter for reconnectable; the harness sets stack.handler.reconnectable",
         "liveness window: %d service calls after the environment turned good and the timeout has elapsed (variants immediate / "
         "realistic); variant steady has no clock jump, so the window is ceil(T/(T/4)) + 4 = %d calls" % (WINDOW, STEADY_WINDOW),
+        "an event-stream Patron's reconnect timeout is the one the server asked for (retry: N milliseconds), as ioflo "
+        "intends (Patron.serviceAll re-arms the timer with retry/1000 s); PatronSSE: retry 500 ms, clock +125 ms per call, "
+        "live again within %d calls after each of the cuts" % SSE_WINDOW,
         "states = distinct (flags, socket state, server state, timer remaining) snapshots after a service call",
     ]
     ck.coverage_extra = dict(deviation_bound=b["dev"], horizon=b["H"], closing_calls=CLOSING, window=WINDOW, steady_closing_calls=STEADY_CLOSING, steady_window=STEADY_WINDOW,
@@ -375,7 +485,9 @@ def run():
         rule="{Client, Patron, TcpClientStack} x {reconnectable, not} x {server initially up, down}: every schedule of %d "
              "service calls with <= %d deviations among env event {none, toggle server, server closes connection}, clock "
              "advance {T, T/2, 0}, connect_ex {natural, EINPROGRESS, ECONNREFUSED}, idle recv {would-block, ECONNRESET}; "
-             "followed by %d good calls" % (b["H"], b["dev"], CLOSING),
+             "followed by %d good calls; plus PatronSSE: a reconnectable Patron on a text/event-stream with retry: 500, every "
+             "sequence of %d cuts x {stream followed 2, 0, 6 calls first} x {server close, ECONNRESET}"
+             % (b["H"], b["dev"], CLOSING, SSE_CUTS[core.TIER]),
         exhaustive=False,
         explanation="exhaustive within the deviation bound and horizon; bounded liveness, not a fixpoint")
 
